@@ -393,9 +393,14 @@ func c05ParsePipeline(c *Ctx) {
 		r.Ob("PARSE-RESULT", "ParsePipeline tests the recorded errors", t.Pos(pp.Pos()), false, "no test of len(p.errs)")
 		return
 	}
+	// which arm is "errors present": len(errs) != 0 / > 0 → true arm; len(errs) == 0 → false arm
+	errArm, okArm := test.Succs[0], test.Succs[1]
+	if bo, ok := test.Instrs[len(test.Instrs)-1].(*ssa.If).Cond.(*ssa.BinOp); ok && bo.Op == token.EQL {
+		errArm, okArm = test.Succs[1], test.Succs[0]
+	}
 	conv := false
 	allInstrs(pp, func(in ssa.Instruction) {
-		if call, ok := in.(*ssa.Call); ok && call.Call.StaticCallee() != nil && call.Call.StaticCallee().Name() == "conv2PlError" && test.Succs[0].Dominates(call.Block()) {
+		if call, ok := in.(*ssa.Call); ok && call.Call.StaticCallee() != nil && call.Call.StaticCallee().Name() == "conv2PlError" && (errArm.Dominates(call.Block()) || errArm == call.Block()) {
 			conv = true
 		}
 	})
@@ -404,7 +409,7 @@ func c05ParsePipeline(c *Ctx) {
 	okRes := true
 	allInstrs(pp, func(in ssa.Instruction) {
 		if u, ok := in.(*ssa.UnOp); ok && strings.HasSuffix(path(u), ".parseResult") {
-			if !test.Succs[1].Dominates(u.Block()) && u.Block() != test.Succs[1] {
+			if !okArm.Dominates(u.Block()) && u.Block() != okArm {
 				okRes = false
 			}
 		}
@@ -714,8 +719,22 @@ func c05Lexer(c *Ctx) {
 		nErr++
 		added := false
 		allInstrs(lex, func(i2 ssa.Instruction) {
-			if call, ok := i2.(*ssa.Call); ok && call.Call.StaticCallee() != nil && call.Call.StaticCallee().Name() == "addParseErr" && precedes(call, ret) {
+			call, ok := i2.(*ssa.Call)
+			if !ok || call.Call.StaticCallee() == nil || !precedes(call, ret) {
+				return
+			}
+			h := call.Call.StaticCallee()
+			if h.Name() == "addParseErr" {
 				added = true
+				return
+			}
+			// a same-package helper that records the error on every path
+			if h.Pkg == lex.Pkg && len(h.Blocks) > 0 {
+				allInstrs(h, func(i3 ssa.Instruction) {
+					if c3, ok := i3.(*ssa.Call); ok && c3.Call.StaticCallee() != nil && c3.Call.StaticCallee().Name() == "addParseErr" && len(controlling(c3.Block())) == 0 {
+						added = true
+					}
+				})
 			}
 		})
 		v, isC := constInt(ret.Results[0])
